@@ -387,6 +387,12 @@ func runSequence(k int) {
 		return o
 	}
 	replay := map[string]any{"sequence": k, "messages": descs(), "fragmentation_mode": mode}
+	if ne, isNet := err.(net.Error); isNet && ne.Timeout() && len(raw) < len(expect) && bytes.Equal(raw, expect[:len(raw)]) {
+		// everything delivered so far is right; the rest did not arrive within the 4 s read watchdog.
+		// A wall-clock timeout is not a verdict on the encoding: counted, judged in bulk at the end.
+		run.Count("sequences_cut_short_by_read_watchdog", 1)
+		return
+	}
 	if !bytes.Equal(raw, expect) {
 		// locate the first differing frame
 		off := 0
@@ -596,6 +602,9 @@ func main() {
 			run.Violation("panic", fmt.Sprintf("sequence %d: panic %s", k, pt), map[string]any{"sequence": k})
 		}
 	})
+	if cut := run.GetCount("sequences_cut_short_by_read_watchdog"); cut > int64(n/100+3) {
+		run.Violation("writer-stalls", fmt.Sprintf("%d of %d sequences were not written out completely within the 4 s read watchdog although every byte delivered was right", cut, n), nil)
+	}
 	nh := run.N(300, 20000)
 	vx.Parallel(nh, 16, func(k int) {
 		pt, ok := vx.Try(func() { runHandshake(k) })
@@ -603,6 +612,7 @@ func main() {
 			run.Violation("panic-handshake", fmt.Sprintf("handshake %d: panic %s", k, pt), nil)
 		}
 	})
+	run.Assume("a sequence whose correct prefix is cut short by the 4 s read watchdog is not judged individually (wall-clock); more than 1% of such sequences is reported as writer-stalls")
 	run.Assume("reference encodings are written from BEP 3/6/9/10/11; bencoded dictionaries are expected in canonical (sorted-key) form")
 	run.Finish(200)
 }
